@@ -1,6 +1,7 @@
 """C13 — genotype data become the spectrum and statistics that direct counting gives.
 
-K : synthetic genotype matrices are rendered to VCF + popinfo text and to the SNP-file format in a temp dir, parsed with
+K : (round 6: the FILTER / REF / ALT / INFO texts of every VCF line also go to the model as texts -- op `vcflines`, the generated reader tokens)
+    synthetic genotype matrices are rendered to VCF + popinfo text and to the SNP-file format in a temp dir, parsed with
     Misc.make_data_dict_vcf / make_data_dict; the resulting dictionary, Spectrum.from_data_dict, fragment_data_dict,
     bootstraps_from_dd_chunks (choices recorded), the sub-sampling branch (draws recorded) and the statistics
     S / pi / Watterson_theta / theta_L / Tajima_D / Fst are compared with the exact-rational Lean model
@@ -321,6 +322,8 @@ def sample_text(ds, site, k):
     if sep == 'mixed': sep = '/|'[(site['pos'] + 3 * k) % 2]
     gt = gt_text(site['gts'][k], sep)
     fmt = ds['fmt'].split(':')
+    if ds.get('trim') and fmt[0] == 'GT' and site['gts'][k] == [9, 9]:
+        return gt                                                            # VCF: trailing fields of a sample may be dropped ("./." for GT:AD:DP)
     nod = site['nodata'][k]
     style = site.get('dpstyle')
     out = []
@@ -1023,7 +1026,8 @@ def check_subsample(chk, ctx, ds, vcf, pop, pop_names_all, codes):
     try:
         dd = M.make_data_dict_vcf(vcf, pop, subsample=dict(sub), filter=filt)
     except Exception as e:
-        chk.fail('make_data_dict_vcf:subsample:raises:%s' % type(e).__name__, 'make_data_dict_vcf(subsample=%r) raises %r' % (sub, e), inp); return
+        chk.fail('make_data_dict_vcf:subsample:raises:%s%s' % (type(e).__name__, ':trailing-fields-dropped' if ds.get('trim') else ''),
+                 'make_data_dict_vcf(subsample=%r) raises %r%s' % (sub, e, ' (FORMAT %s, samples without a call written `./.`: the VCF specification allows trailing fields to be dropped)' % ds['fmt'] if ds.get('trim') else ''), inp); return
     finally:
         np.random.choice = orig
     # ---- L3: exactly the requested number of individuals, drawn without replacement among the complete ones
@@ -1170,7 +1174,8 @@ def check_pipeline(chk, ctx, ds, vcf, pop, pops, codes):
     except Exception as e:
         if lines_with_enough(ds, filt, sub) == 0:
             chk.stat('pipeline:empty-dictionary'); return          # no line survives the sub-sampling: no chunks, nothing to resample
-        chk.fail('bootstraps_subsample_vcf:raises:%s' % type(e).__name__, 'bootstraps_subsample_vcf(subsample=%r, pop_ids=%r, ...) raises %r' % (sub, pop_ids, e), inp); return
+        chk.fail('bootstraps_subsample_vcf:raises:%s%s' % (type(e).__name__, ':trailing-fields-dropped' if ds.get('trim') else ''),
+                 'bootstraps_subsample_vcf(subsample=%r, pop_ids=%r, ...) raises %r%s' % (sub, pop_ids, e, ' (FORMAT %s, samples without a call written `./.`)' % ds['fmt'] if ds.get('trim') else ''), inp); return
     finally:
         np.random.choice = orig_choice; M.random.choices = orig_choices
     chk.l3(('pipeline', len(pop_ids), len(sub), same_order, sizes_differ, pol, mc, filt))
@@ -1383,7 +1388,7 @@ def check_vcf_dataset(chk, ctx, ds):
         chk.sample(dict(kind='vcf', pops=pops, diploids=ds['ndip'], lines=len(ds['sites']), kept=len(dd), fmt=ds['fmt'],
                         chroms=sorted(set(s['chrom'] for s in ds['sites'])), configs=ds['params']['configs'],
                         chunk_size=ds['params']['chunk_size'], subsample=ds['params']['subsample'], pipeline=ds['params'].get('pipeline'),
-                        first_line=dict((k, ds['sites'][0][k]) for k in ('chrom', 'pos', 'ref', 'alt', 'filt', 'aa'))))
+                        first_line=dict(dict((k, ds['sites'][0][k]) for k in ('chrom', 'pos', 'ref', 'alt', 'filt')), info=info_text(ds['sites'][0]))))
     finally:
         shutil.rmtree(d, ignore_errors=True)
 
@@ -1417,7 +1422,8 @@ def render_snpfile(ds, rows, d, with_ids=True):
             ident = []
             if with_ids:
                 ident = [r['chrom'], str(r['pos']) + ('.' + r['info'] if r['info'] else '')]
-            f.write('\t'.join([r['ctx'], r['octx'], r['a1']] + [str(c[0]) for c in r['counts']] + [r['a2']] + [str(c[1]) for c in r['counts']] + ident) + '\n')
+            sepc = '\t' if i % 4 else ('  ' if i % 8 else ' \t ')                      # columns are separated by white space of any kind
+            f.write(sepc.join([r['ctx'], r['octx'], r['a1']] + [str(c[0]) for c in r['counts']] + [r['a2']] + [str(c[1]) for c in r['counts']] + ident) + ('\n' if i % 5 else '  \n'))
     return path
 
 def rows_to_oracle(rows, pops, with_ids=True, comment_shift=True):
@@ -2120,6 +2126,50 @@ def check_dp_dataset(chk, ctx, ds):
     finally:
         shutil.rmtree(d, ignore_errors=True)
 
+def gen_trim_dataset(rng, tier):
+    """missing calls written the short way: FORMAT GT:<depth fields…>, a sample without a call is just `./.` (the VCF specification allows
+    trailing fields of a sample to be dropped; GATK and others write no-calls like this)"""
+    ds = gen_dataset(rng, tier, kind='trim')
+    ds['fmt'] = str(rng.choice(['GT:DP', 'GT:AD:DP', 'GT:DP:AD', 'GT:GQ:DP', 'GT:GQ']))
+    ds['trim'] = True
+    for s in ds['sites']:
+        for k in rng.choice(len(ds['samples']), size=int(rng.integers(0, 3)), replace=False):
+            s['gts'][int(k)] = [9, 9]
+    return ds
+
+def check_trim_dataset(chk, ctx, ds):
+    """the same clauses as for any VCF (dictionary = matrix, sub-sampling, the composed entry point), keys suffixed
+    `trailing-fields-dropped` so that a finding here cannot hide anything in the main streams"""
+    dadi = ctx['dadi']; M = dadi.Misc
+    codes = Codes()
+    d = tempfile.mkdtemp(prefix='c13_')
+    try:
+        vcf, pop = render_vcf(ds, d)
+        filt = ds['params']['filter']; pops = ds['pops']
+        inp = dict(kind=ds['kind'], dataset=ds, at=dict(stage='trim'))
+        ntrim = sum(1 for s in ds['sites'] for al in s['gts'] if al == [9, 9])
+        chk.l3(('trim', ds['fmt'], ntrim > 0, filt))
+        chk.stat('trim:samples-written-short', ntrim)
+        try:
+            dd = M.make_data_dict_vcf(vcf, pop, filter=filt)
+        except Exception as e:
+            chk.fail('make_data_dict_vcf:raises:%s:trailing-fields-dropped' % type(e).__name__, 'make_data_dict_vcf raises %r on a VCF (FORMAT %s) in which samples without a call are written `./.`' % (e, ds['fmt']), inp); return
+        od = oracle_entries_vcf(ds, filt)
+        if sorted(dd.keys()) != sorted(od.keys()) or any(
+                dd[k]['outgroup_allele'] != e['out'] or any(tuple(dd[k]['calls'].get(p, ())) != e['counts'][p] for p in e['counts']) for k, e in od.items()):
+            chk.fail('make_data_dict_vcf:entries:trailing-fields-dropped', 'the data dictionary is not the matrix (FORMAT %s, samples without a call written `./.`)' % ds['fmt'], inp)
+        if have_driver(ctx):
+            present = [p for p in pops if any(s[1] == p for s in ds['samples'])]
+            out = ask(ctx, 'dd_vcf %d %s %s' % (filt, ','.join(str(pops.index(p)) for p in present) if present else '-', sites_wire(ds, codes)))
+            ie = impl_entries(dd, present, codes)
+            if out.startswith('ok ') and entries_equal(parse_snps(out[3:]), ie): chk.k_ok('dd_vcf:trim')
+            else: kbad(chk, 'dd_vcf:trim', ds, ie, out[:2000], None, dict(stage='trim'))
+        if any(not any(s[1] == p for s in ds['samples']) for p in pops): return
+        check_subsample(chk, ctx, ds, vcf, pop, pops, codes)
+        check_pipeline(chk, ctx, ds, vcf, pop, pops, codes)
+    finally:
+        shutil.rmtree(d, ignore_errors=True)
+
 def gen_dp_dataset(rng, tier):
     ds = gen_dataset(rng, tier, kind='dp')
     ds['fmt'] = str(rng.choice(['GT:DP', 'GT:AD:DP', 'GT:DP:AD', 'GT:AD']))
@@ -2140,15 +2190,20 @@ def check_dataset(chk, ctx, ds, rng=None):
     elif k == 'dict': check_dict_dataset(chk, ctx, ds)
     elif k == 'full': check_full_dataset(chk, ctx, ds)
     elif k == 'dp': check_dp_dataset(chk, ctx, ds)
+    elif k == 'trim': check_trim_dataset(chk, ctx, ds)
 
 def run(chk, ctx):
     tier = ctx['tier']
     rng = common.Rng(ctx['seed'], 'C13')
     chk.rule = ('synthetic genotype matrices: 1-3 populations, 2-12 diploids each (2-7 with 3 populations), 4-27 (thorough: -59) lines on 1-3 chromosomes whose '
                 'names contain "_" and "."; per line: REF/ALT single bases, lower case, REF==ALT; non-SNP lines of every kind, a deterministic block of ~60 in EVERY VCF plus random ones: multi-character REF and/or ALT from all substrings of "ACGT" of length 2-4 and from non-substrings, multi-allelic ALT lists, "*", ".", symbolic and IUPAC alleles, lower case; FILTER PASS, ".", '
-                'failing; AA equal to REF, ALT, a third base, absent, ".", "N", "-", multi-character, with "|" suffix, lower case, under AA / AA_ensembl / AA_chimp, '
-                'other INFO fields around it; genotypes with per-line allele frequency and missing rate ("./.", half calls), "/" or "|", FORMAT GT / GT:DP / GT:AD:DP / ...; '
-                'samples absent from the popinfo file; shuffled sample order; repeated CHROM_POS; popinfo with/without header and comments. Rendered to VCF+popinfo and to the '
+                'failing (incl. texts that extend / truncate / re-case / contain PASS: pass, Pass, PAS, PASSED, PASS;q10, q10;PASS, ..); AA equal to REF, ALT, a third base, absent, ".", "N", "-", "?", multi-character, empty, '
+                'with ensembl-style "|" annotation, lower case, under AA / AA_ensembl / AA_chimp; the INFO column is a list of fields: 0-3 unrelated ones, the ancestral-allele field (if any) at a random place among them, and (60% of the lines; 50% on complete data) 1-3 DECOYS '
+                'inserted at random places before / after it: fields whose key is a prefix / extension / case variant of, or contains, a recognised key (AA and AA_ensembl as flags, AAX, AAA, AA_, AA_AC, AA_AF, AA_ens, AA_ensemblX, AA_ensembl_v2, AA_chimpanzee, AA_CHIMP, aa, Aa, XAA, X_AA, A, AA., ...) '
+                'with values that would be a usable ancestral allele (REF, ALT, third base, lower case, "g|||") or counts / frequencies / empty; 5%: a second recognised field; INFO "." ; '
+                'genotypes with per-line allele frequency and missing rate ("./.", half calls), "/" or "|" or both within a line, FORMAT with GT first / in the middle / last and fields the reader does not know (GT:DP, GT:AD:DP, DP:GT, AD:DP:GT, GQ:GT, GT:GQ:PL, DP:GQ:GT:AD, PL:AD:GT); '
+                'samples absent from the popinfo file; shuffled sample order; repeated CHROM_POS; popinfo in 6 layouts (plain; comments + blank line; header SAMPLE POP; header `pop sample extra`; header `Id Sample Sex Pop` in mixed case below a comment that looks like a header, comment / blank lines between rows; '
+                'spaces + surplus columns holding the words pop / sample), samples that are not in the VCF, a sample called `Sample`, populations called POP2 / population / Sample.b. Rendered to VCF+popinfo and to the '
                 'SNP-file format (multi-character alleles, "-"/N outgroup, ids or no ids); hand-made dictionaries (non-biallelic entries, no outgroup key, additional_info). '
                 'Per data set 2-3 configurations (population subset/order, projections incl. full, 1, n-1; polarised or folded; corners masked or not), one chunk size from '
                 '{1,2,7,span/17,span/7,span/2,span,3*span} (at most ~60 chunks per chromosome), 1-3 bootstraps with recorded choices, one sub-sampling request with recorded draws '
@@ -2163,7 +2218,7 @@ def run(chk, ctx):
                 '(lines with allele frequency 0 or 1 and population subsets put usable SNPs into the corner entries: see the stats cfg:corner-entries, pure:corners). '
                 'non-trivial = distinct (stage, #populations, polarised, mask, projection class, some/all/no SNP usable, corner entries populated, chunk/bootstrap/sub-sampling class; for purity: method, dimension, folded, corners populated / masked)')
     chk.unproved = [
-        'text parsing (VCF, popinfo, SNP file) is not modelled in Lean: the abstraction of a line to the fields the model looks at is done by the harness and validated by K through the real parsers',
+        'text parsing (VCF, popinfo, SNP file) is modelled in Lean only for the token-level decisions of the VCF reader on FILTER / REF / ALT / INFO (generated tokens; C13_vcf_aa_keys, C13_vcf_aa_decoy, C13_vcf_aa_first, C13_vcf_aa_value, C13_vcf_line_tokens, C13_vcf_line_site; K `vcflines` on the texts as written): splitting a line into columns, the FORMAT / sample columns, the popinfo file and the SNP file are abstracted by the harness and validated by K through the real parsers',
         'numpy slicing/broadcasting of _from_count_dict, masked-array arithmetic (corners not accumulated when masked) and Spectrum.fold are tied to the pointwise model by K only',
         'round-off of exp(gammaln ...) and of float accumulation: agreement with the exact model at 1e-9 of the array scale is numerical; `_cached_projection` itself is property C08 (a local copy of the weight is used and compared)',
         "the square root in Tajima's D is a parameter (the harness supplies math.sqrt of the model's exact argument); 1e-8 tolerance there",
